@@ -84,6 +84,12 @@ class ThresholdPairCorr(Corr):
 
     def run_impl(self, case):
         results = A.make_results(case["scene"])
+        # the same result objects are first judged under ANOTHER matching mode with numerically equal thresholds (a manager evaluates
+        # every frame under all four modes): the judgement under the case's mode must not depend on that earlier call
+        other = {"CENTERDISTANCE": "IOU2D", "PLANEDISTANCE": "IOU3D", "IOU2D": "PLANEDISTANCE", "IOU3D": "CENTERDISTANCE"}[case["mode"]]
+        for thr in (case["t_loose"], case["t_strict"]):
+            if not A.MAXIMIZE[other] or all(0.0 <= t <= 1.0 for t in thr):      # IoU thresholds outside [0,1] are rejected by an assertion
+                self._one(dict(case, mode=other), results, thr)
         return {"strict": self._one(case, results, case["t_strict"]), "loose": self._one(case, results, case["t_loose"])}
 
     def coq_term(self, case, obs):
